@@ -161,7 +161,7 @@ def correspondence(ctx):
 
 
 def oracle(ctx):
-    _surface(ctx, ctx.report, ['surface', 'fleet', 'long', 'noswitch-projected'], ctx.n(40, 1000), 'surface')
+    _surface(ctx, ctx.report, ['surface', 'fleet', 'long', 'projheavy', 'pymods'], ctx.n(40, 1000), 'surface')
 
 
 def search(ctx, broken):
